@@ -30,6 +30,8 @@ class ElemEval:
     def ev(self, e, env, depth=0):
         if isinstance(e, ast.Constant) and isinstance(e.value, (int, float)) and not isinstance(e.value, bool):
             return ('num', e.value)
+        if isinstance(e, ast.Constant) and e.value is None:
+            return ('none',)
         if isinstance(e, ast.Name):
             if e.id in env:
                 return env[e.id]
@@ -147,6 +149,20 @@ class ElemEval:
         return r if r is not None else ('unk', 'call ' + name)
 
     # ------------------------------------------------------------------ statements
+    def _none_test(self, test, env, depth):
+        """truth of `x is None` / `x is not None` / `x == None` for a local whose value is known; None otherwise"""
+        t, neg = test, False
+        while isinstance(t, ast.UnaryOp) and isinstance(t.op, ast.Not):
+            t, neg = t.operand, not neg
+        if isinstance(t, ast.Compare) and len(t.ops) == 1 and isinstance(t.comparators[0], ast.Constant) and t.comparators[0].value is None \
+                and isinstance(t.ops[0], (ast.Is, ast.IsNot, ast.Eq, ast.NotEq)) and isinstance(t.left, ast.Name) and t.left.id in env:
+            v = env[t.left.id]
+            if v[0] == 'unk':
+                return None
+            r = (v[0] == 'none') == isinstance(t.ops[0], (ast.Is, ast.Eq))
+            return (not r) if neg else r
+        return None
+
     def decide(self, test):
         """truth of a test over the assumed boolean flags; None when it is not such a test"""
         t, neg = test, False
@@ -213,9 +229,20 @@ class ElemEval:
                 f = st.value.func
                 if isinstance(f, ast.Attribute) and isinstance(f.value, ast.Name) and f.value.id == 'self':
                     self.calls.append((f.attr, [self.ev(a, env, depth) for a in st.value.args], st))
+                elif isinstance(f, ast.Attribute) and isinstance(f.value, ast.Name) and f.value.id in env:
+                    # a method called on a tracked local: list growth is followed, any other mutation forgets the value
+                    cur = env[f.value.id]
+                    if f.attr == 'append' and len(st.value.args) == 1 and cur[0] == 'lst':
+                        env[f.value.id] = ('lst', cur[1] + (self.ev(st.value.args[0], env, depth),))
+                    elif f.attr == 'extend' and len(st.value.args) == 1 and cur[0] == 'lst' and self.ev(st.value.args[0], env, depth)[0] == 'lst':
+                        env[f.value.id] = ('lst', cur[1] + self.ev(st.value.args[0], env, depth)[1])
+                    elif f.attr in ('append', 'extend', 'insert', 'pop', 'remove', 'clear', 'sort', 'reverse', 'fill', 'resize', 'put', 'itemset'):
+                        env[f.value.id] = ('unk', 'changed by .%s()' % f.attr)
                 continue
             if isinstance(st, ast.If):
                 d = self.decide(st.test)
+                if d is None:
+                    d = self._none_test(st.test, env, depth)
                 if d is True:
                     r = self.block(st.body, env, depth)
                 elif d is False:
@@ -280,6 +307,8 @@ def show(v):
         return 'x' + ''.join('[%d]' % i for i in v[1])
     if k == 'num':
         return repr(v[1])
+    if k == 'none':
+        return 'None'
     if k == 'lst':
         return '[' + ', '.join(show(x) for x in v[1]) + ']'
     if k == 'pose':
